@@ -16,7 +16,7 @@ SPEC = dict(
                "temporary files left behind by really killed earlier writes. A seventh runs, in one process, a Save of the history object that fails (volume full) "
                "followed by a Save that succeeds on the same object: the file must hold exactly the recorded entries. Operations include saving an existing "
                "command again with only its platforms changed. Two more states put the files into the file system differently: with a second hard link elsewhere, "
-               "and behind a relative symbolic link into a sibling directory (the binary runs in another working directory).",
+               "and behind a relative symbolic link into a sibling directory (the binary runs in another working directory). A further flavour runs the operations as uid 65534 in a configuration directory of mode 0555 whose files are writable, under write limits of 0 .. 5000 bytes.",
     level_note="The limit applies to every regular file the child writes, so an implementation writing a temporary file first is cut in that file. "
                "Power-loss reordering below the file-system API is not modelled. strace counts invocations per system call and thread; the crash points are therefore enumerated as (call name, n) pairs taken from a tracing run; points not reached are counted.",
     engines=[dict(name="crashwrite", shards=T(16, 16), timeout=T(1500, 7200), needs_wtf=True)],
@@ -27,8 +27,8 @@ SPEC = dict(
          "faults-every-rename-refused: every rename / link call of the operation fails with one of seven error codes (strace fault injection without a count): the file stays complete. "
          "after-earlier-writes-*: (also: a pipeline saved under a name, another save, then a pipeline saved under the same name with another command) two ordinary saves (searches) succeed on the prepared state, the third fails after k bytes or is killed at a system call; the "
          "file then holds what the second left or the complete third content.",
-    floors=T({"faults-every-rename-refused": 250, "after-earlier-writes-new": 120, "after-earlier-writes-old": 60, "after-earlier-writes-on-files-written-days-ago": 24, "states-written-days-ago": 80, "faults-efbig-biting": 600, "faults-killed": 300, "killed-on:write": 50, "killed-on:fsync": 2, "killed-on:renameat": 2, "after-efbig-old": 1, "follow-up-after-kill": 15, "distinct_nontrivial": 900, "full-volume-runs": 25, "full-volume-with-leftover-files": 10, "efbig-dense-around-previous-length": 3, "in-process-sequences-with-a-failed-save": 12, "layout:hard-linked": 48, "layout:symlinked": 48},
-             {"faults-every-rename-refused": 250, "after-earlier-writes-new": 120, "after-earlier-writes-old": 60, "after-earlier-writes-on-files-written-days-ago": 24, "states-written-days-ago": 80, "faults-efbig-biting": 20000, "faults-killed": 400, "killed-on:write": 50, "killed-on:fsync": 2, "killed-on:renameat": 2, "after-efbig-old": 1, "follow-up-after-kill": 15, "distinct_nontrivial": 20000, "full-volume-runs": 25, "full-volume-with-leftover-files": 10, "efbig-dense-around-previous-length": 3, "in-process-sequences-with-a-failed-save": 12, "layout:hard-linked": 48, "layout:symlinked": 48}),
+    floors=T({"read-only-directory-runs": 90, "faults-every-rename-refused": 250, "after-earlier-writes-new": 120, "after-earlier-writes-old": 60, "after-earlier-writes-on-files-written-days-ago": 24, "states-written-days-ago": 80, "faults-efbig-biting": 600, "faults-killed": 300, "killed-on:write": 50, "killed-on:fsync": 2, "killed-on:renameat": 2, "after-efbig-old": 1, "follow-up-after-kill": 15, "distinct_nontrivial": 900, "full-volume-runs": 25, "full-volume-with-leftover-files": 10, "efbig-dense-around-previous-length": 3, "in-process-sequences-with-a-failed-save": 12, "layout:hard-linked": 48, "layout:symlinked": 48},
+             {"read-only-directory-runs": 90, "faults-every-rename-refused": 250, "after-earlier-writes-new": 120, "after-earlier-writes-old": 60, "after-earlier-writes-on-files-written-days-ago": 24, "states-written-days-ago": 80, "faults-efbig-biting": 20000, "faults-killed": 400, "killed-on:write": 50, "killed-on:fsync": 2, "killed-on:renameat": 2, "after-efbig-old": 1, "follow-up-after-kill": 15, "distinct_nontrivial": 20000, "full-volume-runs": 25, "full-volume-with-leftover-files": 10, "efbig-dense-around-previous-length": 3, "in-process-sequences-with-a-failed-save": 12, "layout:hard-linked": 48, "layout:symlinked": 48}),
     assumptions=["a file that did not exist before and is empty afterwards counts as previous content",
                  "the Go runtime ignores SIGXFSZ, so RLIMIT_FSIZE yields a short write followed by EFBIG"],
 )
